@@ -440,9 +440,50 @@ def r8_loader_stateless(ctx, rule):
         ctx.ok(rule, rel, 'no loader function writes module-level state (%d functions)' % n)
 
 
+LOADER_MODULES = ('lib_guesser/grammar_io.py', 'lib_guesser/omen/input_file_io.py', 'lib_guesser/omen/optimizer.py')
+PERSIST_CALLS = {'pickle.load', 'pickle.dump', 'pickle.loads', 'pickle.dumps', 'shelve.open', 'json.dump', 'marshal.dump',
+                 'marshal.load', 'dbm.open', 'sqlite3.connect'}
+
+
+def r11_loaders_read_only(ctx, rule):
+    """The grammar a run works with is a function of the ruleset files and this run's flags only.
+
+    The loaders never write to the file system and keep no persistent cache: a cache written by one run and read by the
+    next carries the earlier run's flags (skip_case, skip_brute) into a run started with other flags (seed C16-e: a
+    pickled terminals cache keyed without --all_lower)."""
+    from ..effects import fs_mutation
+    from ..core import dotted
+    n = 0
+    bad = False
+    for rel in LOADER_MODULES:
+        m = ctx.repo.mod(rel)
+        for lname, fn in m.funcs.items():
+            q = rel + '::' + lname
+            ctx.stats['functions'].add(q)
+            for c in calls_in(fn):
+                n += 1
+                d = dotted(c.func) or ''
+                fm = fs_mutation(c)
+                if fm or d in PERSIST_CALLS:
+                    bad = True
+                    ctx.bad(rule, q, 'loader persists state: ' + (fm or d),
+                            'what a run loads must depend on the ruleset files and on this run\'s flags only; state written by a '
+                            'loader and read back by a later run makes the later run inherit the earlier run\'s flags (an '
+                            '--all_lower load would leave lower-case-only masks behind for a default run, and vice versa)', None, c)
+    if ctx.floor(rule, LOADER_MODULES[0], n, 60, 'calls in the loader modules') and not bad:
+        ctx.ok(rule, LOADER_MODULES[0], 'none of the %d calls in the loader modules writes a file or (un)pickles state' % n)
+
+
+def _seeding(ctx, rule):
+    # whatever the loader kept (after the skip_brute drop and rescale) is seeded into the queue unconditionally (seed C14-f)
+    from . import c02
+    return c02.r6_seeding(ctx, rule)
+
+
 def rules(tier):
     return [('C14.R1', r1_rewind), ('C14.R2', r2_renormalisation), ('C14.R3', r3_skip_case),
-            ('C14.R4', r4_restored_flags_live), ('C14.R5', lambda c, r: c08.r5_sav_keys(c, r, sections=('rule_info',), floor=4)), ('C14.R6', c01.r8_uniform_scale), ('C14.R7', r7_probabilities_immutable), ('C14.R8', r8_loader_stateless), ('C14.R9', c08.r11_restore_is_verbatim)]
+            ('C14.R4', r4_restored_flags_live), ('C14.R5', lambda c, r: c08.r5_sav_keys(c, r, sections=('rule_info',), floor=4)), ('C14.R6', c01.r8_uniform_scale), ('C14.R7', r7_probabilities_immutable), ('C14.R8', r8_loader_stateless), ('C14.R9', c08.r11_restore_is_verbatim),
+            ('C14.R10', _seeding), ('C14.R11', r11_loaders_read_only)]
 
 
 META = {
